@@ -333,7 +333,7 @@ func (c *Ctx) checkTxBracket(b txBegin) {
 		if len(args) == 0 {
 			return
 		}
-		if sameValue(args[0], poolRecv, 0) && types.Identical(args[0].Type(), poolRecv.Type()) {
+		if (sameValue(args[0], poolRecv, 0) && types.Identical(args[0].Type(), poolRecv.Type())) || throughSameField(args[0], poolRecv) {
 			fobj := core.CalleeOf(ci.Common())
 			if fobj != nil && !strings.HasPrefix(fobj.Name(), "Begin") {
 				poolUse = in
@@ -717,4 +717,34 @@ func (c *Ctx) checkFailureReported(rel string) {
 			r.OK("C18.3c-failure-reported", construct, c.P.Pos(fn.Pos()), fmt.Sprintf("%d statements checked", nCalls))
 		}
 	}
+}
+
+// throughSameField: v is reached from the same struct field as ref through embedded-field
+// selections and loads (a.db.DB.ExecContext vs a.db.BeginTxx: both go through adapter.db).
+func throughSameField(v, ref ssa.Value) bool {
+	fieldOf := func(x ssa.Value) *types.Var {
+		for i := 0; i < 6 && x != nil; i++ {
+			switch y := x.(type) {
+			case *ssa.UnOp:
+				x = y.X
+			case *ssa.FieldAddr:
+				f, base := core.FieldOfAddr(y)
+				if _, isParam := core.Strip(base).(*ssa.Parameter); isParam {
+					return f
+				}
+				x = base
+			case *ssa.Field:
+				f, base := core.LoadedField(y)
+				if _, isParam := core.Strip(base).(*ssa.Parameter); isParam {
+					return f
+				}
+				x = base
+			default:
+				return nil
+			}
+		}
+		return nil
+	}
+	f1, f2 := fieldOf(v), fieldOf(ref)
+	return f1 != nil && f1 == f2
 }
